@@ -18,13 +18,18 @@ def check(ctx, desc, fn, want, key, rp):
         ctx.violation(f"{key}/wrong_value", f"{desc} = {got!r} want {'nan' if estim.is_nan_rat(want) else str(want[0]) + '/' + str(want[1])}"[:400], rp)
 
 
-def coll(codes, kind, vals):
+def missing(variant, i):
+    """a missing value: the np.nan singleton, a FRESH float NaN object (as produced by .tolist() of a numeric column), or None"""
+    return (np.nan, float("nan"), None, float("nan"))[(variant + i) % 4]
+
+
+def coll(codes, kind, vals, variant=0):
     import pandas as pd
-    items = [np.nan if c == 0 else vals[c - 1] for c in codes]
+    items = [missing(variant, i) if c == 0 else vals[c - 1] for i, c in enumerate(codes)]
     if kind == "list":
         return items
     if kind == "set":
-        return set(x for x in items if not (isinstance(x, float) and np.isnan(x))) | ({np.nan} if 0 in codes else set())
+        return set(x for x in items if not (x is None or (isinstance(x, float) and np.isnan(x)))) | ({missing(variant, 0)} if 0 in codes else set())
     if kind == "series":
         return pd.Series(items, dtype=object, index=[2 * i + 1 for i in range(len(items))])
     if kind == "ndarray":
@@ -49,7 +54,7 @@ def judge_sets(ctx, a, b, res, rp, variant):
     import pyrepseq as prs
     vals = VALS[variant % 2]
     for cont in ("list", "set", "series", "ndarray"):
-        A, B = coll(a, cont, vals), coll(b, cont, vals)
+        A, B = coll(a, cont, vals, variant), coll(b, cont, vals, variant + 1)
         has_missing = 0 in a or 0 in b
         desc = f"({cont} {a}, {cont} {b}) [0 = missing]"
         check(ctx, "overlap" + desc, lambda: prs.overlap(A, B), res["overlap"], f"overlap/{cont}", rp)
